@@ -299,14 +299,12 @@ theorem exactSegs_s (b : List UInt8) {rest : List Seg} (ih : ExactSegs E call ρ
 theorem exactSegs_v (A : Agree N E) {e : Expr} {rest : List Seg} (ihe : Exact E call ρ k env e)
     (ih : ExactSegs E call ρ k env rest) : ExactSegs E call ρ k env (.v e :: rest) := by
   intro acc σ σ' s h8e hp hn hr
-  simp only [h8Segs, Bool.and_eq_true, Bool.or_eq_true, Bool.not_eq_true'] at h8e
-  obtain ⟨⟨h8v, hunk⟩, h8r⟩ := h8e
-  simp only [hseSegs, Bool.or_eq_false_iff] at hp
+  simp only [h8Segs, Bool.and_eq_true] at h8e
+  obtain ⟨h8v, h8r⟩ := h8e
+  simp only [hseSegs, Bool.not_false, Bool.true_and, Bool.or_eq_false_iff, maybeMeta_eq] at hp
+  have hu : isUnknown (evaluate E e) = false := hp.1.1
+  replace hp : hasSideEffects E false e = false ∧ hseSegs E false rest = false := ⟨hp.1.2, hp.2⟩
   simp only [noAllocSegs, Bool.and_eq_true] at hn
-  have hu : isUnknown (evaluate E e) = false := by
-    rcases hunk with h | h
-    · exact h
-    · rw [hp.1] at h; cases h
   simp only [evalSegs] at hr
   obtain ⟨ev, σ1, e1, hr1⟩ := bind_ok hr
   obtain ⟨ts, σ2, e2, hr2⟩ := bind_ok hr1
